@@ -168,7 +168,9 @@ Definition narrow_keeps_value_full_statement : Prop :=
 Definition always_true_full_statement : Prop := forall V o,
   wf_obj o = true -> is_safely_true (boolab_of V) = true -> member o V = true -> truthy o = true.
 
-(* ---- clause nonelementwise_container (finding C02-in-nonelementwise-container) ----
-   the object is in the str container by the container's own test without being one of its iterated elements *)
+(* ---- clause nonelementwise_container (C02-in-nonelementwise-container, repaired) ----
+   the object is in the str container by the container's own test without being one of its iterated elements.
+   Needed only by the rule InPredicate followed before the repair (Model.IterateAlways); not part of any statement
+   about HEAD *)
 Definition nonelementwise_container (s : list N) (o : obj) : bool :=
   match o with OStr t => str_infix t s && negb (Nat.eqb (length t) 1) | _ => false end.
